@@ -32,6 +32,11 @@ def gen(params):
         for p in WITH_PORT_ARGS:
             kw = {"scheme": T(sc), "host": T(h), "port": tv_of(p)}
             yield {"prog": [{"op": "build", "kw": kw}], "fields": fields}
+            if isinstance(p, int) and not isinstance(p, bool) and 0 <= p <= 65535:
+                # the verbatim route keeps the scheme as given: the default port is that of the scheme AS STORED
+                yield {"prog": [{"op": "build", "kw": dict(kw, encoded=True)}], "fields": fields}
+                yield {"prog": [{"op": "build", "kw": dict(kw, scheme=T(sc.upper()), encoded=True)}], "fields": fields}
+                yield {"prog": [{"op": "build", "kw": dict(kw, scheme=T(sc.upper()))}], "fields": fields}
             yield {"prog": [{"op": "ctor", "s": T((sc + ":" if sc else "") + "//" + ("[::1]" if h == "::1" else h) + ":8080/a"),
                              "encoded": False}, {"op": "with_port", "v": tv_of(p)}], "fields": fields}
         for p in PORTS[1:]:
